@@ -22,9 +22,9 @@ theorem emit_same (c : Conn) (e : Ev) : SameStream c (emit c e) := by simp [Same
 theorem setEvents_same (c : Conn) (r w : Bool) : SameStream c (setEvents c r w) := by
   simp [SameStream, setEvents]
 theorem enqueue_same (c : Conn) (t : Task) : SameStream c (enqueue c t) := by simp [SameStream, enqueue]
-theorem popWrite_same (c : Conn) : SameStream c (popWrite c) := by
+theorem popWrite_sameS (c : Conn) : SameStream c (popWrite c) := by
   unfold popWrite; split <;> simp [SameStream]
-theorem popRead_same (c : Conn) : SameStream c (popRead c) := by
+theorem popRead_sameS (c : Conn) : SameStream c (popRead c) := by
   unfold popRead; split <;> simp [SameStream]
 theorem shutdownInLoop_same (c : Conn) : SameStream c (shutdownInLoop c) := by
   unfold shutdownInLoop; split <;> simp [SameStream, emit]
@@ -157,7 +157,7 @@ theorem handleWriteRes_stream (c : Conn) (r : WriteRes) (h : StreamInv c) : Stre
 theorem handleWrite_stream (c : Conn) (h : StreamInv c) : StreamInv (handleWrite c) := by
   unfold handleWrite
   split
-  · exact handleWriteRes_stream _ _ (StreamInv.of_same (same_trans (popWrite_same _) (emit_same _ _)) h)
+  · exact handleWriteRes_stream _ _ (StreamInv.of_same (same_trans (popWrite_sameS _) (emit_same _ _)) h)
   · exact h
 
 theorem startReadInLoop_same (c : Conn) : SameStream c (startReadInLoop c) := by
@@ -229,7 +229,7 @@ theorem handleReadRes_stream (c : Conn) (r : ReadRes) (h : StreamInv c) : Stream
 
 theorem handleRead_stream (c : Conn) (h : StreamInv c) : StreamInv (handleRead c) := by
   unfold handleRead
-  exact handleReadRes_stream _ _ (StreamInv.of_same (same_trans (popRead_same _) (emit_same _ _)) h)
+  exact handleReadRes_stream _ _ (StreamInv.of_same (same_trans (popRead_sameS _) (emit_same _ _)) h)
 
 theorem guarded_stream (f : Conn → Conn) (hf : ∀ c, StreamInv c → StreamInv (f c)) (rev : Prop) [Decidable rev]
     (sub : Bool → Bool → Bool → Prop) [∀ a b c, Decidable (sub a b c)]
